@@ -131,13 +131,20 @@ def tryInternStatic (env : Env) (t : Threaded) (i : Nat) : Threaded × Out Nat :
 
 def setLimit (t : Threaded) (m : Nat) : Threaded := { t with arena := { t.arena with max := m } }
 
+/-- `strings.into_iter().map(|s| s.unwrap()).collect()`. -/
+def collectSome : List (Option α) → Option (List α)
+  | [] => some []
+  | none :: _ => none
+  | some a :: r => (collectSome r).map (a :: ·)
+
 /-- The scatter of `into_reader`/`into_resolver`: `vec![None; strings.len()]`, every `(key, str)`
 written at `key` with `index_unchecked_mut!`, then `unwrap()` of every slot. -/
 def scatter (t : Threaded) : Out (List StrRef) :=
   let n := t.strs.length
   if t.strs.all (fun e => decide (e.1 < n)) then
-    let slots := (List.range n).map (fun i => assocGet i t.strs)
-    if slots.all Option.isSome then .ok (slots.filterMap id) else .fault .unwrapNone
+    match collectSome ((List.range n).map (fun i => assocGet i t.strs)) with
+    | some l => .ok l
+    | none => .fault .unwrapNone
   else .fault .oobIndex
 
 /-- Rebuild the raw table from the drained string->key map. -/
@@ -189,6 +196,32 @@ def insertSorted (e : Nat × StrRef) : List (Nat × StrRef) → List (Nat × Str
 def sortedStrs (t : Threaded) : List (Nat × StrRef) := t.strs.foldr insertSorted []
 
 end Threaded
+
+/-! ## `Extend` / `FromIterator`: a loop over `get_or_intern` -/
+
+/-- `Extend::extend`: `get_or_intern` (infallible) on every item in order. Returns the interner as
+the loop left it and whether it ran to the end (`false`: an `expect` panicked at that item). -/
+def Rodeo.extend (env : Env) (r : Rodeo) : List Bytes → Rodeo × Bool
+  | [] => (r, true)
+  | x :: rest =>
+    match r.tryIntern env x true with
+    | .ok (r', _) => Rodeo.extend env r' rest
+    | _ => (r, false)
+
+def Threaded.extend (env : Env) (t : Threaded) : List Bytes → Threaded × Bool
+  | [] => (t, true)
+  | x :: rest =>
+    match t.tryIntern env x with
+    | (t', .ok _) => Threaded.extend env t' rest
+    | (t', _) => (t', false)
+
+/-- `FromIterator::from_iter`: `Capacity::for_strings(hint)` (default 4096 bytes), no limit, then the
+same loop. The size hint only sizes the tables; the model has no table capacity, so it cannot matter. -/
+def Rodeo.fromIter (env : Env) (N : Nat) (xs : List Bytes) : Rodeo × Bool :=
+  Rodeo.extend env (Rodeo.new N 4096 18446744073709551615) xs
+
+def Threaded.fromIter (env : Env) (N : Nat) (xs : List Bytes) : Threaded × Bool :=
+  Threaded.extend env (Threaded.new N 4096 18446744073709551615) xs
 
 /-! ## Equality (`PartialEq` impls) -/
 
